@@ -2053,8 +2053,12 @@ static struct aws_json_value *parse_text(const char *text, size_t n) {
 }
 
 static void py_record(const char *origin, const struct mnode *m, const struct sbuf *c, const struct sbuf *f) {
-    long every = mon_run.param[0] > 0 ? mon_run.param[0] : 4;
-    if (!s_py || (s_case % (uint64_t)every) != 0 || c->n + f->n > 60000 || mn_depth(m) > 100) {
+    /* every p0-th case, thinned so that one process writes about 1000 records at most (thorough tier) */
+    uint64_t every = mon_run.param[0] > 0 ? (uint64_t)mon_run.param[0] : 4;
+    if (mon_run.count / 1000 > every) {
+        every = mon_run.count / 1000;
+    }
+    if (!s_py || (s_case % every) != 0 || c->n + f->n > 60000 || mn_depth(m) > 100) {
         return;
     }
     struct sbuf mt = {0};
